@@ -366,7 +366,15 @@ func runC11(res *result) {
 		res.Extra["go_packages_built"] = goRuns
 		if err != nil {
 			seen := map[string]bool{}
+			linkOnly := 0
 			for _, line := range strings.Split(string(out), "\n") {
+				if strings.Contains(line, "function main is undeclared in the main package") {
+					// an IDL file called main.frugal without a go namespace becomes package main; a
+					// library package of that name cannot be linked as a command, which says nothing
+					// about the emitted source (it type-checked)
+					linkOnly++
+					continue
+				}
 				tag := tagOf(line)
 				if tag == "" || seen[tag] || strings.HasPrefix(line, "#") {
 					continue
@@ -374,7 +382,7 @@ func runC11(res *result) {
 				seen[tag] = true
 				failFor(tag, "go-does-not-compile", strings.TrimSpace(line[strings.Index(line, tag):]))
 			}
-			if len(seen) == 0 {
+			if len(seen) == 0 && linkOnly == 0 {
 				res.fail(finding{Key: "C11/harness/go-build", Msg: string(out)})
 			}
 		}
